@@ -65,18 +65,36 @@ def atoiDigits (g : Bytes) : Option Nat :=
 structure Formatter where
   indexes : List Nat
   fmtStr  : Bytes
+  /-- the template has no reference at all: `fmtStr` is the result -/
+  literal : Bool := false
   deriving Repr, DecidableEq
 
-/-- `NewTemplateFormatter` -/
+/-- `strings.ReplaceAll(template, "%", "%%")` -/
+def escapePct (s : Bytes) : Bytes := s.flatMap fun b => if b == cPct then [cPct, cPct] else [b]
+
+/-- `templateReplaceCaptureRE.ReplaceAllStringFunc(escaped, …)`: ONE left-to-right pass over the (escaped) template;
+    a reference with a usable number becomes `%s` and contributes its index (in match order), any other reference
+    becomes the empty string, everything else is copied. Returns the format string and the indexes. -/
+def substRefs (captureCount : Nat) : Nat → Bytes → Bytes × List Nat
+  | 0, s => (s, [])
+  | _, [] => ([], [])
+  | fuel + 1, b :: rest =>
+    if b == cDollar then
+      match refMatchAt rest with
+      | some (_, g, r) =>
+        let o := substRefs captureCount fuel r
+        match atoiDigits g with
+        | some idx => if idx > captureCount || idx < 1 then o else ([cPct, 115] ++ o.1, (idx - 1) :: o.2)
+        | none => o
+      | none => let o := substRefs captureCount fuel rest; (b :: o.1, o.2)
+    else let o := substRefs captureCount fuel rest; (b :: o.1, o.2)
+
+/-- `NewTemplateFormatter` (since the repair b74fba2: `%` escaped, references substituted in a single pass) -/
 def compileTemplate (tmpl : Bytes) (captureCount : Nat) : Formatter :=
-  let ms := findRefs tmpl.length tmpl
-  if ms.isEmpty then ⟨[], tmpl⟩ else
-  ms.foldl (fun (f : Formatter) (m : Bytes × Bytes) =>
-    match atoiDigits m.2 with
-    | some idx =>
-      if idx > captureCount || idx < 1 then { f with fmtStr := replaceAll m.1 [] f.fmtStr.length f.fmtStr }
-      else ⟨f.indexes ++ [idx - 1], replaceAll m.1 [cPct, 115] f.fmtStr.length f.fmtStr⟩
-    | none => { f with fmtStr := replaceAll m.1 [] f.fmtStr.length f.fmtStr }) ⟨[], tmpl⟩
+  if (findRefs tmpl.length tmpl).isEmpty then ⟨[], tmpl, true⟩ else
+  let e := escapePct tmpl
+  let o := substRefs captureCount e.length e
+  ⟨o.2, o.1, false⟩
 
 def missingStr : Bytes := strBytes "%!s(MISSING)"
 
@@ -104,7 +122,7 @@ where
 
 /-- `TemplateFormatter.Format`; `none` = a `%` sequence outside the modelled fragment -/
 def Formatter.format (f : Formatter) (caps : List Bytes) : Option Bytes :=
-  if f.indexes.isEmpty then some f.fmtStr
+  if f.literal then some f.fmtStr
   else sprintfS f.fmtStr (f.indexes.map fun i => caps.getD i [])
 
 /-! ### `regexp.Expand` template syntax -/
